@@ -674,7 +674,7 @@ func TestVerifC24Names(t *testing.T) {
 	L := verifkit.Size(5, 7)
 	e.Exhaustive(true)
 	e.Extra("exhaustive_alphabet", fmt.Sprintf("%q", verifc24.Alphabet))
-	e.Extra("exhaustive_max_len", L)
+	e.Extra("exhaustive_max_len", fmt.Sprint(L))
 	e.Extra("class_alphabet", fmt.Sprintf("%q len %d", verifc24.ClassAlphabet, L+1))
 
 	var pending []string
@@ -748,6 +748,9 @@ func TestVerifC24Names(t *testing.T) {
 		for _, tpl := range templates {
 			for pos := 0; pos <= len(tpl); pos++ {
 				for b := 1; b < 256; b++ {
+					if len(tpl) > 8 && bytes.IndexByte(verifc24.Boundary, byte(b)) < 0 {
+						continue // long templates: class boundaries only
+					}
 					ins := tpl[:pos] + string([]byte{byte(b)}) + tpl[pos:]
 					if !seen[ins] {
 						seen[ins] = true
@@ -927,9 +930,9 @@ func TestVerifC24Tags(t *testing.T) {
 	freeLen := verifkit.Size(3, 4)   // any token sequence up to this many tokens
 	prefLen := verifkit.Size(4, 6)   // "snap." + token sequences up to this many tokens
 	e.Extra("tokens", fmt.Sprintf("%q", c24Tokens))
-	e.Extra("free_sequences_max_tokens", freeLen)
-	e.Extra("prefixed_sequences_max_tokens", prefLen)
-	e.Extra("edit_distance", verifkit.Size(1, 2))
+	e.Extra("free_sequences_max_tokens", fmt.Sprint(freeLen))
+	e.Extra("prefixed_sequences_max_tokens", fmt.Sprint(prefLen))
+	e.Extra("edit_distance", fmt.Sprint(verifkit.Size(1, 2)))
 	e.Exhaustive(true)
 
 	seen := map[string]bool{}
@@ -1029,7 +1032,7 @@ func TestVerifC24Tags(t *testing.T) {
 		}
 	}
 	flush()
-	e.Extra("distinct_tags_all_shards", idx)
+	e.Extra("distinct_tags_all_shards", fmt.Sprint(idx))
 	e.Extra("observation:is-hook-classification-differs", hookObs)
 	for i, s := range hookSamples {
 		e.Extra(fmt.Sprintf("observation-sample-%d", i), s)
@@ -1437,6 +1440,9 @@ func c24RunLaw(d *c24Driver, c c24LawCase) (verifkit.Outcome, error) {
 func TestVerifC24GenLaw(t *testing.T) {
 	d := c24GetDriver(t)
 	defer d.stop()
+	// interface-specific sanitizing of plugs/slots is wired in by the
+	// interfaces package in the daemon; the generated snaps have none
+	defer snap.MockSanitizePlugsSlots(func(*snap.Info) {})()
 	verifkit.Check(t, verifkit.Spec[c24LawCase]{
 		ID: "C24", Engine: "genlaw",
 		Gen:             c24GenLaw,
